@@ -214,7 +214,38 @@ def impl(op, a):
                 r = B.auto_bisc(getattr(PP, a[0]))
             return "None" if r is None else fdict(r)
         return guarded(f)
+    if op == "autom":
+        # the automatic driver on a property given as a function: "avoids these mesh patterns"
+        # (decided by the oracle's own brute-force containment, memoised per permutation)
+        def f():
+            prop = _mesh_prop(a[0])
+            with quiet():
+                r = B.auto_bisc(lambda perm: prop(tuple(perm)))
+            return "None" if r is None else fdict(r)
+        return guarded(f)
     raise ValueError("unknown op " + op)
+
+
+_PROPS = {}
+
+
+def _mesh_prop(spec):
+    """spec: `perm/cells;perm/cells` -> memoised predicate 'avoids all of them' on tuples"""
+    if spec not in _PROPS:
+        ms = []
+        for e in spec.split(";"):
+            q, c = e.split("/")
+            ms.append((pseq(q), frozenset(pcells(c))))
+        memo = {}
+
+        def prop(s):
+            r = memo.get(s)
+            if r is None:
+                r = not any(len(q) <= len(s) and contains_mesh(s, q, R) for q, R in ms)
+                memo[s] = r
+            return r
+        _PROPS[spec] = prop
+    return _PROPS[spec]
 
 
 # ----------------------------------------------------------------------------- oracle (property text, brute force)
@@ -326,13 +357,17 @@ def oracle(op, a):
             return None
         k = len(c)
         return fcells({(x, y) for x in range(k + 1) for y in range(k + 1)} - hit(s, c))
-    if op == "auto":
+    if op in ("auto", "autom"):
         # "avoiding the returned patterns coincides with the property on every permutation up to length 8"
         out = impl(op, a)
         if out == "None" or out.startswith("ERR:"):
             return None
         ms = meshes(pdict(out))
-        prop = getattr(PP, a[0])
+        if op == "autom":
+            mp = _mesh_prop(a[0])
+            prop = lambda perm: mp(tuple(perm))  # noqa: E731
+        else:
+            prop = getattr(PP, a[0])
         for k in range(9):
             for s in itertools.permutations(range(k)):
                 av = not any(len(q) <= k and contains_mesh(s, q, R) for q, R in ms)
@@ -679,6 +714,17 @@ def run(ctx):
     # ---- the automatic driver on cheap shipped properties (not modelled in Lean: oracle only)
     if thorough:
         ctx.compare("auto-bisc", ["auto smooth", "auto forest_like", "auto baxter", "auto simsun"], use_model=False)
+    # properties given as functions ("avoids these short mesh patterns"), including ones where a basis chosen
+    # from the bad permutations seen so far is insufficient for a longer bad permutation
+    lines = ["autom 1,0/0.0,0.1,1.1,2.2;1,0/0.0,1.2,2.1,2.2", "autom 0,1/0.0,1.1;1,0/2.2", "autom 0,1/1.1"]
+    for _ in range(7 if not thorough else 40):
+        ms = []
+        for _ in range(rng.randrange(1, 3)):
+            q = rng.choice([(0, 1), (1, 0)])
+            cells = [(x, y) for x in range(3) for y in range(3) if rng.random() < rng.choice((0.3, 0.45))]
+            ms.append("%s/%s" % (fseq(q), fcells(cells)))
+        lines.append("autom " + ";".join(ms))
+    ctx.compare("auto-bisc-functions", lines, use_model=False)
     # ---- malformed / outside the stated precondition (model correspondence only)
     lines = []
     for _ in range(60 if not thorough else 400):
